@@ -78,6 +78,9 @@ def main():
         if os.path.exists(fn):
             recs += [json.loads(l) for l in open(fn)]
             os.remove(fn)
+    if a.prefix and os.path.exists(a.out):   # a partial re-run replaces the entries of the seeds it ran
+        redone = set(r['seed'] for r in recs)
+        recs += [r for r in json.load(open(a.out))['results'] if r['seed'] not in redone]
     recs.sort(key=lambda r: r['seed'])
     st = {}
     for r in recs:
